@@ -50,7 +50,9 @@ def observe (c : CState) (a : AState) (tag atag : String) : List String :=
     [kv s!"s_E{k}" (encS p), kv s!"s_I{k}" (b2s (p = none)), kv s!"s_Q{k}" (b2s (p = a.el.getD 0 none))]
   let as' := (enumFrom a.sc).flatMap fun (k, s) =>
     [kv s!"s_S{k}" (natHex s 32), kv s!"s_Z{k}" (b2s (s = 0))]
-  [kv "t" (if tag = "" then "ok" else tag), kv "s_t" (if atag = "" then "ok" else atag)] ++ ce ++ cs ++ ae ++ as'
+  -- `chk`: the full observation record of theorem C10.obs_refines (all pairwise Equal included) agrees
+  [kv "t" (if tag = "" then "ok" else tag), kv "s_t" (if atag = "" then "ok" else atag),
+   kv "chk" (b2s (cobs c = aobs a))] ++ ce ++ cs ++ ae ++ as'
 
 structure St where
   c : CState
